@@ -1,10 +1,230 @@
 package main
 
+import (
+	"encoding/binary"
+
+	webp "github.com/deepteams/webp"
+)
+
 type advStream struct {
 	name string
 	data []byte
 }
 
-// adversarialStreams returns hand-assembled valid VP8 files whose dequantised
-// coefficients leave the no-wrap range of the 16-bit-lane kernels.
-func adversarialStreams() []advStream { return nil }
+// vp8Plan describes a hand-assembled one-macroblock (16x16) VP8 key frame in
+// i16/DC_PRED mode: a Y2 block and sixteen luma AC blocks with the given token
+// levels, empty chroma.  Every field is within what the format allows.
+type vp8Plan struct {
+	qi        int // base quantiser index 0..127
+	y2        [16]int
+	yAC       [16]int // zigzag positions 1..15 used, same for all 16 blocks
+	simpleFlt bool
+	fltLevel  int
+}
+
+func nbitsCat(tab []uint8) int {
+	n := 0
+	for _, p := range tab {
+		if p == 0 {
+			break
+		}
+		n++
+	}
+	return n
+}
+
+func putLarge(bw *webp.VerifArchBoolWriter, t *webp.VerifArchVP8Tables, v int, p []uint8) {
+	if v <= 4 {
+		bw.PutBit(0, int(p[3]))
+		if v == 2 {
+			bw.PutBit(0, int(p[4]))
+		} else {
+			bw.PutBit(1, int(p[4]))
+			bw.PutBit(v-3, int(p[5]))
+		}
+		return
+	}
+	bw.PutBit(1, int(p[3]))
+	if v <= 10 {
+		bw.PutBit(0, int(p[6]))
+		if v <= 6 {
+			bw.PutBit(0, int(p[7]))
+			bw.PutBit(v-5, 159)
+		} else {
+			bw.PutBit(1, int(p[7]))
+			bw.PutBit((v-7)>>1, 165)
+			bw.PutBit((v-7)&1, 145)
+		}
+		return
+	}
+	bw.PutBit(1, int(p[6]))
+	cat := 0
+	for cat < 3 && v >= 3+(8<<uint(cat+1)) {
+		cat++
+	}
+	bit1, bit0 := cat>>1, cat&1
+	bw.PutBit(bit1, int(p[8]))
+	bw.PutBit(bit0, int(p[9+bit1]))
+	extra := v - 3 - (8 << uint(cat))
+	tab := t.Cat3456[cat]
+	n := nbitsCat(tab)
+	for i := 0; i < n; i++ {
+		bw.PutBit((extra>>uint(n-1-i))&1, int(tab[i]))
+	}
+}
+
+// putCoeffs mirrors getCoeffsInline; levels are indexed by zigzag position.
+func putCoeffs(bw *webp.VerifArchBoolWriter, t *webp.VerifArchVP8Tables, typ, ctx, first int, levels [16]int) (nz int) {
+	last := -1
+	for n := first; n < 16; n++ {
+		if levels[n] != 0 {
+			last = n
+		}
+	}
+	proba := func(n, c int) []uint8 { return t.CoeffsProba0[typ][t.KBands[n]][c][:] }
+	n := first
+	p := proba(n, ctx)
+	if last < 0 {
+		bw.PutBit(0, int(p[0]))
+		return first
+	}
+	for n <= last {
+		bw.PutBit(1, int(p[0]))
+		for levels[n] == 0 {
+			bw.PutBit(0, int(p[1]))
+			n++
+			p = proba(n, 0)
+		}
+		bw.PutBit(1, int(p[1]))
+		v := levels[n]
+		sign := 0
+		if v < 0 {
+			sign, v = 1, -v
+		}
+		next := 1
+		if v == 1 {
+			bw.PutBit(0, int(p[2]))
+		} else {
+			bw.PutBit(1, int(p[2]))
+			putLarge(bw, t, v, p)
+			next = 2
+		}
+		bw.PutBitUniform(sign)
+		n++
+		if n == 16 {
+			return 16
+		}
+		p = proba(n, next)
+	}
+	bw.PutBit(0, int(p[0]))
+	return n
+}
+
+func buildVP8(pl vp8Plan) []byte {
+	t := webp.VerifArchTables()
+	// partition 0: headers and modes
+	h := webp.VerifArchNewBoolWriter(4096)
+	h.PutBitUniform(0) // colour space
+	h.PutBitUniform(0) // clamping type
+	h.PutBitUniform(0) // no segmentation
+	if pl.simpleFlt {
+		h.PutBitUniform(1)
+	} else {
+		h.PutBitUniform(0)
+	}
+	h.PutBits(uint32(pl.fltLevel), 6)
+	h.PutBits(0, 3)    // sharpness
+	h.PutBitUniform(0) // no lf deltas
+	h.PutBits(0, 2)    // one token partition
+	h.PutBits(uint32(pl.qi), 7)
+	for i := 0; i < 5; i++ {
+		h.PutBitUniform(0) // no quantiser deltas
+	}
+	h.PutBitUniform(0) // refresh entropy probs
+	for a := range t.CoeffsUpdateProba {
+		for b := range t.CoeffsUpdateProba[a] {
+			for c := range t.CoeffsUpdateProba[a][b] {
+				for d := range t.CoeffsUpdateProba[a][b][c] {
+					h.PutBit(0, int(t.CoeffsUpdateProba[a][b][c][d]))
+				}
+			}
+		}
+	}
+	h.PutBitUniform(0) // no skip probability
+	h.PutBit(1, 145)   // i16
+	h.PutBit(0, 156)
+	h.PutBit(0, 163) // DC_PRED
+	h.PutBit(0, 142) // chroma DC_PRED
+	part0 := append([]byte(nil), h.Finish()...)
+
+	// token partition
+	w := webp.VerifArchNewBoolWriter(4096)
+	putCoeffs(w, &t, 1, 0, 0, pl.y2)
+	var top [4]int
+	for y := 0; y < 4; y++ {
+		l := 0
+		for x := 0; x < 4; x++ {
+			nz := putCoeffs(w, &t, 0, l+top[x], 1, pl.yAC)
+			f := 0
+			if nz > 1 {
+				f = 1
+			}
+			l, top[x] = f, f
+		}
+	}
+	var none [16]int
+	for i := 0; i < 8; i++ {
+		putCoeffs(w, &t, 2, 0, 0, none)
+	}
+	tok := append([]byte(nil), w.Finish()...)
+
+	var frame []byte
+	tag := uint32(0) | 0<<1 | 1<<4 | uint32(len(part0))<<5
+	frame = append(frame, byte(tag), byte(tag>>8), byte(tag>>16), 0x9d, 0x01, 0x2a, 16, 0, 16, 0)
+	frame = append(frame, part0...)
+	frame = append(frame, tok...)
+	pad := len(frame) & 1
+	out := []byte("RIFF")
+	out = binary.LittleEndian.AppendUint32(out, uint32(4+8+len(frame)+pad))
+	out = append(out, "WEBPVP8 "...)
+	out = binary.LittleEndian.AppendUint32(out, uint32(len(frame)))
+	out = append(out, frame...)
+	if pad == 1 {
+		out = append(out, 0)
+	}
+	return out
+}
+
+func fill(v int, alt bool) (a [16]int) {
+	for i := range a {
+		a[i] = v
+		if alt && i%2 == 1 {
+			a[i] = -v
+		}
+	}
+	return
+}
+
+// adversarialStreams returns hand-assembled valid VP8 files.  The "lane16-wrap"
+// ones carry token levels whose dequantised coefficients int16(level*dq) leave
+// the no-wrap range of the 16-bit-lane inverse WHT / IDCT; "control" ones stay
+// far inside it.
+func adversarialStreams() []advStream {
+	plans := []struct {
+		name string
+		p    vp8Plan
+	}{
+		// q19: y2 dc 40, y2 ac 35, y1 ac 23: WHT input 16 x ~2070, IDCT AC 15 x 2300
+		{"lane16-wrap/q19-wht2070-ac2300", vp8Plan{qi: 19, y2: func() [16]int { a := fill(59, false); a[0] = 52; return a }(), yAC: fill(100, false)}},
+		{"lane16-wrap/q60-alt", vp8Plan{qi: 60, y2: fill(300, true), yAC: fill(400, true), simpleFlt: true, fltLevel: 20}},
+		{"lane16-wrap/q127-max", vp8Plan{qi: 127, y2: fill(2114, false), yAC: fill(2114, false), fltLevel: 30}},
+		{"lane16-wrap/q0-max", vp8Plan{qi: 0, y2: fill(2114, false), yAC: fill(2114, true)}},
+		{"control/q30-small", vp8Plan{qi: 30, y2: fill(7, true), yAC: fill(3, true), simpleFlt: true, fltLevel: 25}},
+		{"control/q80-mid", vp8Plan{qi: 80, y2: func() [16]int { var a [16]int; a[0] = 40; a[1] = -9; a[5] = 2; return a }(), yAC: func() [16]int { var a [16]int; a[1] = 6; a[2] = -3; a[9] = 1; return a }(), fltLevel: 40}},
+	}
+	var out []advStream
+	for _, p := range plans {
+		out = append(out, advStream{p.name, buildVP8(p.p)})
+	}
+	return out
+}
